@@ -1,5 +1,6 @@
 SPECIFICATION Spec
 CONSTANTS Family = "mutations"
 INVARIANT FamiliesOK
+INVARIANT ReaderInvertsWriter
 INVARIANT Export
 CHECK_DEADLOCK FALSE
